@@ -5,3 +5,4 @@ pub mod parse;
 pub mod group;
 pub mod eg;
 pub mod meta;
+pub mod hist;
